@@ -108,6 +108,14 @@ func RunJobs(l *Loaded, jobs []*Job, workers int, cfg symx.Config, deadline time
 					fmt.Fprintf(os.Stderr, "start %s %s%v\n", j.Label, j.Entry, j.Args)
 				}
 				results[i] = runJob(eng, l, j)
+				if eng.SolverDead() {
+					fmt.Fprintf(os.Stderr, "solver died during %s %s%v; restarting\n", j.Label, j.Entry, j.Args)
+					eng.Close()
+					eng, err = symx.NewEngine(l.Prog, c)
+					if err != nil {
+						panic(err)
+					}
+				}
 				if traceJobs {
 					fmt.Fprintf(os.Stderr, "done  %s %s%v\n", j.Label, j.Entry, j.Args)
 				}
